@@ -91,6 +91,17 @@ fn oracle_parse(b: &[u8]) -> Parsed {
     if b[9] != 17 {
         return Parsed::Reject("not-udp");
     }
+    // RFC 791: the datagram is the first `total length` octets of the frame; a frame that ends before
+    // that was cut short in transit, whatever follows the datagram is link padding (fix F-C14-S3 made
+    // `Ipv4::demux` honour this; before, a datagram with one padding octet was refused by UDP)
+    let tl = u16::from_be_bytes([b[2], b[3]]) as usize;
+    if tl < 20 {
+        return Parsed::Reject("total-length");
+    }
+    if b.len() < tl {
+        return Parsed::Reject("truncated");
+    }
+    let b = &b[..tl];
     if b.len() < 28 {
         return Parsed::Reject("short-udp");
     }
@@ -98,8 +109,7 @@ fn oracle_parse(b: &[u8]) -> Parsed {
     if ulen != b.len() - 20 {
         return Parsed::Reject("udp-length");
     }
-    let tl = u16::from_be_bytes([b[2], b[3]]) as usize;
-    let clean = tl == b.len() && b[1] & 3 == 0 && frag & 0x8000 == 0 && b[10] == 0 && b[11] == 0 && b[26] == 0 && b[27] == 0;
+    let clean = b[1] & 3 == 0 && frag & 0x8000 == 0 && b[10] == 0 && b[11] == 0 && b[26] == 0 && b[27] == 0;
     if !clean {
         return Parsed::Unclear;
     }
@@ -124,8 +134,13 @@ fn decode_fields(bytes: &[u8]) -> (String, String) {
                 h.flags.is_last_fragment() as u8,
                 h.fragment_offset
             );
+            // what `Ipv4::demux` hands up since fix F-C14-S3: the datagram ends at the total length; a
+            // frame that is shorter is refused like a header that does not decode
+            if bytes.len() < h.total_length as usize {
+                return ("bad".into(), "-".into());
+            }
             let off = (h.ihl as usize * 4).min(bytes.len());
-            let rest = &bytes[off..];
+            let rest = &bytes[off..(h.total_length as usize).max(off)];
             let udp = match UdpHeader::from_bytes_ipv4(rest.iter().cloned(), rest.len(), h.source, h.destination) {
                 Ok(u) => format!("{},{}", u.source, u.destination),
                 Err(_) => "bad".into(),
@@ -315,7 +330,13 @@ fn gen_scenario(seed: u64) -> Scenario {
             1 => bytes[0] = 0x65,                       // version 6
             2 => bytes[0] = 0x46,                       // options
             3 => bytes.truncate(20 + r.below(8) as usize), // short UDP header
-            4 => bytes.push(0),                         // UDP length mismatch
+            4 => bytes.push(0),                         // one octet of link padding (delivered without it)
+            8 => {
+                // UDP length mismatch: the length field claims one octet more / less than the datagram holds
+                let l = u16::from_be_bytes([bytes[24], bytes[25]]);
+                let l2 = if l > 8 && r.chance(1, 2) { l - 1 } else { l + 1 };
+                bytes[24..26].copy_from_slice(&l2.to_be_bytes());
+            }
             5 => bytes[9] = *r.pick(&[6u8, 1, 99, 253]), // not UDP
             6 => {
                 // a fragment: more-fragments set (flag bit 0 of ControlFlags = !is_last)
@@ -479,6 +500,13 @@ fn analyse(sc: &Scenario, res: &RunResult, rep: &mut CaseReport) {
         if let Some((is_inject, mi, slot, target, bytes)) = arrival {
             {
                 let (ipf, udpf) = decode_fields(bytes);
+                // the model keeps headers abstract and takes the payload from `bytes`: it is given the DATAGRAM,
+                // i.e. the frame cut at the IPv4 total length when link padding follows it (what `Ipv4::demux`
+                // works on since fix F-C14-S3; the cutting itself is modelled and proved in Model/RecvPath.lean)
+                let dgram: &[u8] = match Ipv4Header::from_bytes(bytes.iter().cloned()) {
+                    Ok(h) if target == Target::Ipv4 && (h.total_length as usize) < bytes.len() => &bytes[..h.total_length as usize],
+                    _ => bytes,
+                };
                 let op = format!(
                     "{} {} slot={} tgt={} ip={} udp={} bytes={}",
                     if is_inject { "inject" } else { "arrive" },
@@ -487,7 +515,7 @@ fn analyse(sc: &Scenario, res: &RunResult, rep: &mut CaseReport) {
                     target.pid(),
                     ipf,
                     udpf,
-                    hex(bytes)
+                    hex(dgram)
                 );
                 let ds: Vec<&Event> = by_cause.get(&e.id).cloned().unwrap_or_default();
                 let mut line = if ds.is_empty() { "none".to_string() } else { ds.iter().map(|d| fmt_demux(d)).collect::<Vec<_>>().join(" | ") };
